@@ -422,6 +422,19 @@ func runC03(r *Run) {
 		}
 		return ps
 	}()...)
+	{
+		var ps []struct {
+			name, coq, tpl string
+			observe        func(out string) bool
+		}
+		for _, p := range positions {
+			ps = append(ps, struct {
+				name, coq, tpl string
+				observe        func(out string) bool
+			}{p.name, p.coq, p.tpl, p.observe})
+		}
+		c03Routes(r, ps)
+	}
 	for _, p := range positions {
 		for _, v := range all {
 			data := map[string]any{"no": false, "yes": true}
@@ -447,6 +460,72 @@ func runC03(r *Run) {
 			}
 			r.Count("position:" + p.name)
 			r.Case("positions", fmt.Sprintf("CPosition %s %s", p.coq, coqv), obs, map[string]any{"position": p.name, "template": p.tpl, "value": desc}, map[string]string{"position": p.name, "class": class}, class != "bool")
+		}
+	}
+}
+
+// One value reached by different routes - a variable, a map entry, a struct field spelled by its Go name
+// and by its JSON tag, a slice element, a field behind a pointer - must be truthy or falsy alike in every
+// position: the routes differ in who answers (the expression evaluator or the path resolver), the table does not.
+type c03Task struct {
+	Done  *bool   `json:"done"`
+	Count *int    `json:"count"`
+	Name  *string `json:"name"`
+	Flag  bool    `json:"flag"`
+	N     int     `json:"n"`
+	S     string  `json:"s"`
+	U     *uint8  `json:"u"`
+	NilP  *int    `json:"nilp"`
+}
+
+func c03Routes(r *Run, positions []struct {
+	name, coq, tpl string
+	observe        func(out string) bool
+}) {
+	mk := func(b bool, n int, s string, u uint8) any {
+		return map[string]any{"t": c03Task{Done: &b, Count: &n, Name: &s, Flag: b, N: n, S: s, U: &u}, "tp": &c03Task{Done: &b, Count: &n, Name: &s, Flag: b, N: n, S: s, U: &u},
+			"m": map[string]any{"done": &b, "n": n, "s": s, "flag": b}, "xs": []any{b, n, s, &b}, "no": false, "yes": true}
+	}
+	type route struct{ a, b string } // two spellings that reach the same value
+	routes := []route{{"t.Done", "t.done"}, {"t.Count", "t.count"}, {"t.Name", "t.name"}, {"t.Flag", "t.flag"}, {"t.N", "t.n"}, {"t.S", "t.s"}, {"t.U", "t.u"}, {"t.NilP", "t.nilp"},
+		{"tp.Done", "tp.done"}, {"tp.N", "tp.n"}, {"tp.Flag", "tp.flag"}, {"m.done", "xs[3]"}, {"m.flag", "xs[0]"}, {"m.n", "xs[1]"}, {"m.s", "xs[2]"}, {"m.n", "t.n"}, {"m.s", "t.S"}}
+	for _, d := range []struct {
+		b bool
+		n int
+		s string
+		u uint8
+	}{{false, 0, "", 0}, {true, 5, "x", 2}, {false, 3, "false", 0}, {true, 0, "", 9}} {
+		data := mk(d.b, d.n, d.s, d.u)
+		for _, rt := range routes {
+			verdict := map[string]string{}
+			for _, sp := range []string{rt.a, rt.b} {
+				for _, p := range positions {
+					if p.coq == "PNotIf" {
+						continue // what ! does to a pointer or to a field the expression evaluator cannot see is the evaluator's business (C13)
+					}
+					tpl := strings.NewReplacer(`"v"`, `"`+sp+`"`, `"!v"`, `"!`+sp+`"`, `!(v)`, `!(`+sp+`)`, `{on: v}`, `{on: `+sp+`}`).Replace(p.tpl)
+					out, err := c03RenderAny(tpl, data)
+					r.Eval("route:"+sp+":"+p.name+fmt.Sprint(d), true, nil)
+					r.Count("stream:routes(oracle only)")
+					if err != nil {
+						verdict[sp+" @ "+p.name] = "error"
+						continue
+					}
+					t := p.observe(out)
+					if p.coq == "PNotIf" {
+						t = !t
+					}
+					verdict[sp+" @ "+p.name] = fmt.Sprint(t)
+				}
+			}
+			seen := map[string]bool{}
+			for _, v := range verdict {
+				seen[v] = true
+			}
+			if len(seen) > 1 {
+				r.Fail("one value is truthy by one route or position and falsy by another", map[string]string{"oracle": "routes-uniform", "route": rt.a + "~" + rt.b},
+					map[string]any{"data": fmt.Sprintf("Done=&%v Count=&%d Name=&%q Flag=%v N=%d S=%q U=&%d", d.b, d.n, d.s, d.b, d.n, d.s, d.u), "verdicts": verdict})
+			}
 		}
 	}
 }
